@@ -20,8 +20,8 @@ let int_of_n = function N0 -> 0 | Npos p -> int_of_pos p
 let b2i b = if b then 1 else 0
 
 (* token stream helpers *)
-exception Bad of string
-let take1 = function x :: r -> (x, r) | [] -> raise (Bad "short")
+exception Bad_case of string
+let take1 = function x :: r -> (x, r) | [] -> raise (Bad_case "short")
 let rec take_n n l = if n <= 0 then ([], l) else let (x, r) = take1 l in let (xs, r') = take_n (n - 1) r in (x :: xs, r')
 let take_list l = let (n, r) = take1 l in take_n n r
 let put_list l = List.length l :: l
@@ -35,7 +35,7 @@ let op_hist args =
     | 0 :: x :: r -> HAdd x :: parse r
     | 1 :: r -> HBack :: parse r
     | 2 :: r -> HForward :: parse r
-    | _ -> raise (Bad "hist") in
+    | _ -> raise (Bad_case "hist") in
   let ops = parse args in
   let rec run h = function
     | [] -> []
@@ -59,7 +59,7 @@ let parse_feed args =
     | 2 :: r -> FUp :: parse r
     | 3 :: r -> FDown :: parse r
     | 4 :: r -> FCenter :: parse r
-    | _ -> raise (Bad "feed") in
+    | _ -> raise (Bad_case "feed") in
   (init, parse r)
 
 let enc_item = function Some x -> x | None -> -1
@@ -127,40 +127,215 @@ let op_unitable args =
       if is_control (n_of_int c) then ct := c :: !ct
     done;
     put_list !sp @ put_list !ct
-  | _ -> raise (Bad "unitable")
+  | _ -> raise (Bad_case "unitable")
+
+(* oracles on the implementation's outputs (see coq/theories/Oracles.v) *)
+let impl_text impl = match impl with n :: r when List.length r = n -> Some (List.map n_of_int r) | _ -> None
+let orc_wrap args impl =
+  let (t, r) = take_text args in let (w, _) = take1 r in
+  match impl_text impl with
+  | Some out when w >= 1 && wf_text_b t ->
+    [("wrap_ok", wrap_ok (z_of_int w) t out); ("layout_attrs_ok", layout_attrs_ok t out)]
+  | _ -> []
+let orc_dumbwrap args impl =
+  let (t, r) = take_text args in let (w, _) = take1 r in
+  match impl_text impl with
+  | Some out when w >= 1 && wf_text_b t ->
+    [("dumb_ok", dumb_ok (z_of_int w) t out); ("layout_attrs_ok", layout_attrs_ok t out)]
+  | _ -> []
+let orc_pad args impl =
+  let (t, r) = take_text args in let (w, _) = take1 r in
+  match impl_text impl with
+  | Some out when wf_text_b t ->
+    [("pad_ok", pad_ok (z_of_int w) t out); ("layout_attrs_ok", layout_attrs_ok t out)]
+  | _ -> []
+let orc_indent args impl =
+  let (t, r) = take_text args in let (p, _) = take_text r in
+  match impl_text impl with
+  | Some out when wf_text_b t && wf_text_b p -> [("neutral", neutral_b out)]
+  | _ -> []
+let orc_snip args impl =
+  let (t, r) = take_text args in let (w, r) = take1 r in let (h, r) = take1 r in let (e, _) = take_text r in
+  match impl_text impl with
+  | Some out when wf_text_b t && wf_text_b e && h >= 1 && not (has_nl e) ->
+    [("snip_ok", snip_ok (z_of_int w) (z_of_int h) t e out); ("neutral", neutral_b out)]
+  | _ -> []
+let orc_center args impl =
+  let (_, r) = take_text args in let (_, r) = take_text r in let (_, r) = take_text r in let (h, _) = take1 r in
+  match impl_text impl with
+  | Some out when h >= 1 -> [("height_ok", height_ok (z_of_int h) out)]
+  | _ -> []
+let orc_apply args impl =
+  let (t, r) = take_text args in let (s, _) = take_text r in
+  match impl_text impl with
+  | Some out when wf_text_b t && s <> [] && List.for_all is_param s && not (is_clear s) ->
+    [("neutral", neutral_b out); ("wf_out", wf_text_b out)]
+  | _ -> []
+let orc_equal f args impl = [("equals_model", f args = impl)]
+
+(* ---------------- style terms and layout pipelines (C14) ---------------- *)
+let default_colors =
+  let t s = List.map (fun c -> n_of_int (Char.code c)) (List.init (String.length s) (String.get s)) in
+  { c_primary = t "164;245;155"; c_error = t "156;53;53"; c_highlight = t "13;125;0"; c_code = t "75;75;75" }
+let rec take_term l =
+  let (tag, r) = take1 l in
+  match tag with
+  | 0 -> let (t, r) = take_text r in (TPlain t, r)
+  | 1 -> let (f, r) = take1 r in let (x, r) = take_term r in
+    let sf = (match f with 0 -> SBold | 1 -> SStrike | 2 -> SUnderline | 3 -> SItalic | 4 -> SCode | 5 -> SHighlight | 6 -> SColor | _ -> SRed) in
+    (TStyled (sf, x), r)
+  | 2 -> let (a, r) = take_term r in let (b, r) = take_term r in (TCat (a, b), r)
+  | _ -> raise (Bad_case "term")
+type pipeop = PWrap of int | PDumb of int | PPad of int | PIndent of n list * bool | PSnip of int * int * n list
+let take_pipe l =
+  let (n, r) = take1 l in
+  let rec go n r = if n = 0 then ([], r) else
+      let (k, r) = take1 r in
+      let (o, r) = (match k with
+        | 0 -> let (w, r) = take1 r in (PWrap w, r)
+        | 1 -> let (w, r) = take1 r in (PDumb w, r)
+        | 2 -> let (w, r) = take1 r in (PPad w, r)
+        | 3 -> let (p, r) = take_text r in let (i, r) = take1 r in (PIndent (p, i <> 0), r)
+        | 4 -> let (w, r) = take1 r in let (h, r) = take1 r in let (e, r) = take_text r in (PSnip (w, h, e), r)
+        | _ -> raise (Bad_case "pipe")) in
+      let (os, r) = go (n - 1) r in (o :: os, r) in
+  go n r
+exception Model_panic
+let run_pipe ops t =
+  List.fold_left (fun t o -> match o with
+    | PWrap w -> wrap t (z_of_int w)
+    | PDumb w -> dumb_wrap t (z_of_int w)
+    | PPad w -> pad t (z_of_int w)
+    | PIndent (p, i) -> indent t p i
+    | PSnip (w, h, e) -> (match snip t (z_of_int w) (z_of_int h) e with Ok x -> x | Panic -> raise Model_panic)) t ops
+let op_stylepipe args =
+  let (x, r) = take_term args in
+  let (ops, _) = take_pipe r in
+  let t = sterm_eval default_colors x in
+  try put_text t @ put_text (run_pipe ops t) with Model_panic -> panic_marker
+let rec term_plain_ok = function
+  | TPlain t -> not (List.mem (n_of_int 27) t)
+  | TStyled (_, y) -> term_plain_ok y
+  | TCat (a, b) -> term_plain_ok a && term_plain_ok b
+let disp_equal a b = a = b
+let orc_stylepipe args impl =
+  let (x, r) = take_term args in
+  let (ops, _) = take_pipe r in
+  if not (term_plain_ok x) then [] else
+  match impl with
+  | n :: rest when List.length rest > n ->
+    let (styled, rest') = take_n n rest in
+    let styled = List.map n_of_int styled in
+    (match impl_text rest' with
+     | Some final ->
+       let expect = sterm_expect default_colors [] x in
+       let vis l = List.filter (fun (c, _) -> not (is_space c)) l in
+       let keeps = List.for_all (function PWrap w | PDumb w -> w >= 1 | PPad _ -> true | _ -> false) ops in
+       [("style_compose", fst (display styled) = expect && snd (display styled) = []);
+        ("neutral", neutral_b final)]
+       @ (if keeps then [("layout_attrs_ok", vis (fst (display final)) = vis expect)] else [])
+     | None -> [])
+  | _ -> []
+let op_styleconst args =
+  let (t, r) = take_text args in let (n, r) = take1 r in let (lvl, _) = take1 r in
+  let c = default_colors in
+  match link c t (z_of_int n), link_block c t (z_of_int n) with
+  | Ok l, Ok lb ->
+    put_text l @ put_text lb @ put_text (quote_block c t) @ put_text (header c t (nat_of_int lvl)) @ put_text (bullet t) @ put_text (code_block c t)
+  | _ -> panic_marker
+
+(* ---------------- C17: object accessors ---------------- *)
+let z_of_halves hi lo = Z.add (Z.mul (z_of_int hi) (z_of_int 4294967296)) (z_of_int lo)
+let halves_of_z z =
+  let (q, r) = Z.div_eucl z (z_of_int 4294967296) in [int_of_z q; int_of_z r]
+let rec take_jv l =
+  let (tag, r) = take1 l in
+  match tag with
+  | 0 -> (JNull, r)
+  | 1 -> let (b, r) = take1 r in (JBool (b <> 0), r)
+  | 2 -> let (hi, r) = take1 r in let (lo, r) = take1 r in (JNum (z_of_halves hi lo), r)
+  | 3 -> let (t, r) = take_text r in (JStr t, r)
+  | 4 -> let (n, r) = take1 r in
+    let rec go n r = if n = 0 then ([], r) else let (v, r) = take_jv r in let (vs, r) = go (n - 1) r in (v :: vs, r) in
+    let (vs, r) = go n r in (JArr vs, r)
+  | 5 -> let (n, r) = take1 r in
+    let rec go n r = if n = 0 then ([], r) else
+        let (k, r) = take_text r in let (v, r) = take_jv r in let (kvs, r) = go (n - 1) r in ((k, v) :: kvs, r) in
+    let (kvs, r) = go n r in (JObj kvs, r)
+  | _ -> raise (Bad_case "jv")
+let rec put_jv = function
+  | JNull -> [0]
+  | JBool b -> [1; b2i b]
+  | JNum z -> 2 :: halves_of_z z
+  | JStr t -> 3 :: put_text t
+  | JArr l -> 4 :: List.length l :: List.concat_map put_jv l
+  | JObj kvs -> 5 :: List.length kvs :: List.concat_map (fun (k, v) -> put_text k @ put_jv v) kvs
+let put_acc f = function Present v -> 0 :: f v | Absent -> [1] | Bad -> [2]
+
+(* args: json text (ignored by the model), key, jv encoding of the document *)
+let op_acc args lib =
+  let (_doc, r) = take_text args in
+  let (key, r) = take_text r in
+  let (v, _) = take_jv r in
+  let o = match v with JObj kvs -> kvs | _ -> raise (Bad_case "acc: not an object") in
+  let (tok, tsec, tns, uok, ustr) = match lib with
+    | t :: s :: n :: u :: rest -> (t, s, n, u, (if u <> 0 then fst (take_text rest) else []))
+    | _ -> (0, 0, 0, 0, []) in
+  let time_parse _ = if tok <> 0 then Some (Z.add (Z.mul (z_of_int tsec) (z_of_int 1000000000)) (z_of_int tns)) else None in
+  let url_parse _ = if uok <> 0 then Some ustr else None in
+  put_jv v
+  @ put_acc put_jv (get_any o key)
+  @ put_acc put_text (get_string o key)
+  @ put_acc halves_of_z (get_number o key)
+  @ put_acc (fun kvs -> put_jv (JObj kvs)) (get_object o key)
+  @ put_acc (fun l -> List.length l :: List.concat_map put_jv l) (get_list o key)
+  @ put_acc (fun z -> let (q, r) = Z.div_eucl z (z_of_int 1000000000) in [int_of_z q; int_of_z r]) (get_time time_parse o key)
+  @ put_acc put_text (get_url url_parse o key)
+  @ put_acc (fun m -> put_text m.essence @ put_text m.supertype @ put_text m.subtype) (get_media_type o key)
+  @ put_acc (fun (k, _) -> [match k with MPlain -> 0 | MHtml -> 1 | MMarkdown -> 1 | MGemini -> 2])
+      (get_markup o key (List.map n_of_int [109;101;100;105;97;84;121;112;101]))
 
 (* ---------------- dispatch ---------------- *)
-let handlers : (string, (int list -> int list) * (int list -> int list -> (string * bool) list)) Hashtbl.t = Hashtbl.create 64
-let reg name f o = Hashtbl.replace handlers name (f, o)
+let handlers : (string, (int list -> int list -> int list) * (int list -> int list -> int list -> (string * bool) list)) Hashtbl.t = Hashtbl.create 64
+(* handlers that use library-oracle answers (the "<id> L ..." line of the implementation run) *)
+let regl name f o = Hashtbl.replace handlers name (f, o)
+let reg name f o = Hashtbl.replace handlers name ((fun a _ -> f a), (fun a _ i -> o a i))
 let no_oracle _ _ = []
+let no_oracle_l _ _ _ = []
 let () =
   reg "hist" op_hist oracle_hist;
   reg "feed" op_feed oracle_feed;
   reg "expand" op_expand no_oracle;
-  reg "apply" op_apply no_oracle;
-  reg "indent" op_indent no_oracle;
-  reg "pad" op_pad no_oracle;
-  reg "wrap" op_wrap no_oracle;
-  reg "dumbwrap" op_dumbwrap no_oracle;
-  reg "snip" op_snip no_oracle;
-  reg "center" op_center no_oracle;
-  reg "replacelast" op_replacelast no_oracle;
-  reg "setlength" op_setlength no_oracle;
+  reg "apply" op_apply orc_apply;
+  reg "indent" op_indent orc_indent;
+  reg "pad" op_pad orc_pad;
+  reg "wrap" op_wrap orc_wrap;
+  reg "dumbwrap" op_dumbwrap orc_dumbwrap;
+  reg "snip" op_snip orc_snip;
+  reg "center" op_center (fun a i -> orc_center a i @ orc_equal op_center a i);
+  reg "replacelast" op_replacelast (orc_equal op_replacelast);
+  reg "setlength" op_setlength (orc_equal op_setlength);
   reg "scrub" op_scrub no_oracle;
   reg "squash" op_squash no_oracle;
   reg "height" op_height no_oracle;
-  reg "unitable" op_unitable no_oracle
+  reg "unitable" op_unitable no_oracle;
+  reg "stylepipe" op_stylepipe orc_stylepipe;
+  reg "styleconst" op_styleconst (orc_equal op_styleconst);
+  regl "acc" op_acc (fun a l i -> [("acc_equals_spec", op_acc a l = i)])
 
 let split_ws s = List.filter (fun x -> x <> "") (String.split_on_char ' ' (String.trim s))
 
 let () =
   let cases = Sys.argv.(1) in
   let impl_tbl : (string, int list) Hashtbl.t = Hashtbl.create 1024 in
+  let lib_tbl : (string, int list) Hashtbl.t = Hashtbl.create 1024 in
   if Array.length Sys.argv > 2 then begin
     let ic = open_in Sys.argv.(2) in
     (try while true do
         let line = input_line ic in
         match split_ws line with
+        | id :: "L" :: toks ->
+          (try Hashtbl.replace lib_tbl id (List.map int_of_string toks) with _ -> ())
         | id :: toks ->
           (try Hashtbl.replace impl_tbl id (List.map int_of_string toks) with _ -> ())
         | [] -> ()
@@ -175,16 +350,17 @@ let () =
       | id :: op :: toks ->
         (try
           let args = List.map int_of_string toks in
-          let (f, o) = try Hashtbl.find handlers op with Not_found -> raise (Bad ("unknown op " ^ op)) in
-          let res = f args in
+          let (f, o) = try Hashtbl.find handlers op with Not_found -> raise (Bad_case ("unknown op " ^ op)) in
+          let lib = match Hashtbl.find_opt lib_tbl id with Some l -> l | None -> [] in
+          let res = f args lib in
           Buffer.add_string buf (id ^ " M " ^ String.concat " " (List.map string_of_int res) ^ "\n");
           (match Hashtbl.find_opt impl_tbl id with
            | Some impl ->
              List.iter (fun (name, ok) ->
-               Buffer.add_string buf (Printf.sprintf "%s O %s %d\n" id name (b2i ok))) (o args impl)
+               Buffer.add_string buf (Printf.sprintf "%s O %s %d\n" id name (b2i ok))) (o args lib impl)
            | None -> ())
         with
-        | Bad m -> Buffer.add_string buf (id ^ " E " ^ m ^ "\n")
+        | Bad_case m -> Buffer.add_string buf (id ^ " E " ^ m ^ "\n")
         | Stack_overflow -> Buffer.add_string buf (id ^ " E stack_overflow\n"))
       | _ -> ()
     done with End_of_file -> ());
